@@ -25,7 +25,7 @@ ASSUMPTIONS = [
     "Which exception is raised is not compared.",
 ]
 REQUIRED_CLASSES = ["in-order", "misordered", "unknown-name", "ignored-name", "contig-without-data", "cut-inside-group", "last-group-misplaced",
-                    "iter", "pileup", "mask-sum", "compute", "track", "multistream", "forbes-jaccard"]
+                    "iter", "pileup", "mask-sum", "compute", "track", "multistream", "forbes-jaccard", "kept-underscore-name"]
 BOUNDS = {"quick": "genomes of 3 contigs (+1 ignored): every group sequence over 5 labels (326) x 3 chunkings x 7 consumers; 4-contig genomes sampled (600)",
           "thorough": "genomes of up to 4 contigs: every group sequence over 6 labels (1957) x 4 chunkings x 7 consumers; 5000 sampled"}
 BUDGET_S = {"quick": 200, "thorough": 1500}
@@ -75,6 +75,8 @@ def classify(case):
         cl.append("unknown-name")
     if any(g in ignored for g in seq):
         cl.append("ignored-name")
+    if any("_" in g and g in genome and g not in ignored for g in seq):
+        cl.append("kept-underscore-name")
     n_entries = sum(case["sizes"][i % len(case["sizes"])] for i in range(len(seq)))
     bounds = list(itertools.accumulate(case["sizes"][i % len(case["sizes"])] for i in range(len(seq))))
     if any(c not in bounds and 0 < c < n_entries for c in case["cuts"]):
@@ -282,7 +284,8 @@ def sampled_case(draw):
     if draw(st.booleans()):
         pos = draw(st.integers(0, n))
         genome.insert(pos, ["chr1_alt", 5])
-        ignored = ["chr1_alt"]
+        # a name with an underscore is ignored by the default filter, and an ordinary contig under keep_all
+        ignored = ["chr1_alt"] if draw(st.booleans()) else []
     labels = [g[0] for g in genome] + ["nowhere"]
     in_order = [g[0] for g in genome]
     mode = draw(st.sampled_from(["ok", "ok", "swap", "any"]))
